@@ -52,7 +52,73 @@ def target_read(lit, backslash):
     return ''.join(out)
 
 
-def override_model(fn, dialect_name):
+def enclosing_params(fn):
+    """parameters of the function enclosing the compiler class, other than the statement and the dialect: free variables of render_literal_value bound there"""
+    encl = getattr(fn, '_parent', None)
+    while encl is not None and not isinstance(encl, ast.FunctionDef):
+        encl = getattr(encl, '_parent', None)
+    if encl is None:
+        return None, []
+    a = encl.args
+    names = [x.arg for x in a.posonlyargs + a.args + a.kwonlyargs]
+    return encl, [x for x in names[1:] if x != 'dialect']
+
+
+def outer_values(ctx, cls, encl, extra, sa_module, how, key):
+    """Values the renderer passes for the extra parameters of a render function: SqlalchemyRender.__init__ interpreted for a constructor argument (`how`: the key of the
+    dialect table, or the dialect class of that module), then the argument expressions of the call site of the render function evaluated on that instance."""
+    from ..interp import Interp, Obj, Raised, Env, ClassRef
+    tree = ctx.src.tree(RENDER)
+    stubs = {}
+    for m in ('mysql', 'postgresql', 'sqlite', 'mssql', 'oracle'):
+        stubs[f'{m}.dialect'] = (lambda m_: (lambda it, *a, **k: Obj('Dialect', name=m_, server_version_info=None, paramstyle=k.get('paramstyle'),
+                                                                        _setup_version_attributes=lambda *a_, **k_: None)))(m)
+    stubs['sa.types.__dict__.items'] = lambda it: [('BOOLEAN', Obj('Type', __module__='sqlalchemy.sql.sqltypes'))]          # the type table is not what is examined here
+    stubs['getattr'] = lambda it, o, name, *d: (ClassRef(f'{o.name}.{name}') if isinstance(o, ClassRef) else (o.attrs[name] if name in o.attrs else d[0]))
+    it = Interp.for_file(ctx.src, RENDER, {}, stubs)
+    init = [m for m in cls.body if isinstance(m, ast.FunctionDef) and m.name == '__init__'][0]
+    self_ = Obj('SqlalchemyRender')
+    arg = key if how == 'name' else ClassRef(f'{sa_module}.dialect')
+    try:
+        it.call_function(init, [self_, arg], {}, Env())
+    except Raised as r:
+        raise AnalysisError(f'SqlalchemyRender.__init__({arg!r}) raises {r.exc_name}')
+    # call sites of the render function inside the class: direct, or through a local name bound to it
+    vals = {}
+    for m in [m for m in cls.body if isinstance(m, ast.FunctionDef)]:
+        aliases = {encl.name}
+        for n in ast.walk(m):
+            if isinstance(n, ast.Assign) and isinstance(n.value, ast.Name) and n.value.id in aliases and isinstance(n.targets[0], ast.Name):
+                aliases.add(n.targets[0].id)
+        for c in [n for n in ast.walk(m) if isinstance(n, ast.Call) and isinstance(n.func, ast.Name) and n.func.id in aliases]:
+            a = encl.args
+            params = [x.arg for x in a.posonlyargs + a.args]
+            env = Env()
+            env.set('self', self_)
+            for i, e in enumerate(c.args):
+                if i < len(params) and params[i] in extra:
+                    vals.setdefault(params[i], []).append(it.ev(e, env))
+            for k in c.keywords:
+                if k.arg in extra:
+                    vals.setdefault(k.arg, []).append(it.ev(k.value, env))
+    out = {}
+    a = encl.args
+    pos = a.posonlyargs + a.args
+    defaults = dict(zip([x.arg for x in pos[len(pos) - len(a.defaults):]], a.defaults))
+    defaults.update({x.arg: d for x, d in zip(a.kwonlyargs, a.kw_defaults) if d is not None})
+    for nm in extra:
+        if nm in vals:
+            if any(v != vals[nm][0] for v in vals[nm]):
+                raise AnalysisError(f'{encl.name}: the call sites pass different values for `{nm}`')
+            out[nm] = vals[nm][0]
+        elif nm in defaults:
+            out[nm] = it.ev(defaults[nm], Env())
+        else:
+            raise AnalysisError(f'{encl.name}: no call site passes `{nm}` and it has no default')
+    return out
+
+
+def override_model(fn, dialect_name, outer=None):
     """LiteralCompiler.render_literal_value interpreted (fail-closed AST interpreter) for a str value under `dialect.name == dialect_name`:
     -> callable(value) -> literal text; raises _Delegates when str values are handed to super()."""
     from ..interp import Interp, Obj, Raised, Env
@@ -70,6 +136,8 @@ def override_model(fn, dialect_name):
         env = Env()
         d = Obj('Dialect', name=dialect_name)
         env.set('dialect', d)
+        for k_, v_ in (outer or {}).items():
+            env.set(k_, v_)
         try:
             out = it.call_function(fn, [Obj('LiteralCompiler', dialect=d), v, None], {}, env)
         except Raised as r:
@@ -134,29 +202,34 @@ def run(ctx):
             sa_name = {'mysql': 'mysql', 'postgresql': 'postgresql', 'sqlite': 'sqlite', 'mssql': 'mssql', 'oracle': 'oracle'}.get(mod, mod)
             syn = TARGET_SYNTAX.get(dn)
             ctx.need(syn is not None, f'no reference literal syntax for dialect name {dn!r}')
-            enc = override_model(m, sa_name)
-            bad = []
-            delegated = False
-            for v in C04.VALUE_PROBES:
-                try:
-                    lit = enc(v)
-                except _Delegates:
-                    delegated = True
-                    break
-                back = target_read(lit, syn['backslash'])
-                if back != v:
-                    bad.append((v, lit, back))
-            ctx.count('override_probe_runs')
-            if delegated:
-                ctx.ob('C07.literal-override', f'{fname}:{dn}', sa_name not in ('postgresql',),
-                       f'{fname}: str values are delegated to SQLAlchemy\'s own render_literal_value; for {dn} SQLAlchemy doubles '
-                       f'backslashes unless the server reported standard_conforming_strings, which this offline renderer never asks: '
-                       f'a backslash in a constant is rendered twice', file=RENDER, line=m.lineno, witness="Constant('C:\\\\temp')")
-                continue
-            ctx.ob('C07.literal-override', f'{fname}:{dn}', not bad,
-                   f'{fname}: for dialect {dn!r} the constant {bad[0][0]!r} is rendered as {bad[0][1]}, which {dn} reads as '
-                   f'{"an unterminated / prematurely ended literal (the rest of the value becomes SQL)" if bad[0][2] is None else repr(bad[0][2])}'
-                   if bad else '', file=RENDER, line=m.lineno, witness=f'Constant({bad[0][0]!r})' if bad else None)
+            encl_, extra_ = enclosing_params(m)
+            for how in (('name', 'class') if extra_ and dn == mod else ('name',)):
+                outer_ = outer_values(ctx, cls, encl_, extra_, mod, how, dn) if extra_ else None
+                enc = override_model(m, sa_name, outer_)
+                if how == 'class':
+                    dn = f'{dn} (renderer built from the dialect class)'
+                bad = []
+                delegated = False
+                for v in C04.VALUE_PROBES:
+                    try:
+                        lit = enc(v)
+                    except _Delegates:
+                        delegated = True
+                        break
+                    back = target_read(lit, syn['backslash'])
+                    if back != v:
+                        bad.append((v, lit, back))
+                ctx.count('override_probe_runs')
+                if delegated:
+                    ctx.ob('C07.literal-override', f'{fname}:{dn}', sa_name not in ('postgresql',),
+                           f'{fname}: str values are delegated to SQLAlchemy\'s own render_literal_value; for {dn} SQLAlchemy doubles '
+                           f'backslashes unless the server reported standard_conforming_strings, which this offline renderer never asks: '
+                           f'a backslash in a constant is rendered twice', file=RENDER, line=m.lineno, witness="Constant('C:\\\\temp')")
+                    continue
+                ctx.ob('C07.literal-override', f'{fname}:{dn}', not bad,
+                       f'{fname}: for dialect {dn!r} the constant {bad[0][0]!r} is rendered as {bad[0][1]}, which {dn} reads as '
+                       f'{"an unterminated / prematurely ended literal (the rest of the value becomes SQL)" if bad[0][2] is None else repr(bad[0][2])}'
+                       if bad else '', file=RENDER, line=m.lineno, witness=f'Constant({bad[0][0]!r})' if bad else None)
     # (2) the tree's own printers
     enc, steps, site = C04.encoder_model(ctx)
     g = load_dialect(ctx.src, 'mindsdb')
